@@ -779,13 +779,16 @@ def r_cycle(kinds, ev):
     pre_act = '__CPROVER_old(%s)' % R_ACT
     return dict(
         requires_target=R_TARGET + (['{fresh:event}'] if ev else []),
-        requires=['g_clock < 100u', 'g_rounds == 0', '!g_has_surv'] + INV + REQ_INV + zero(list(kinds) + [13, 14]) + zero(LIFE1, (1,)) + (['{ptr:event} == g_event'] if ev else []),
-        assigns=PR_ASSIGNS + marks(list(kinds) + [13, 14]) + REC_ASSIGNS,
+        requires=['g_clock < 100u', 'g_rounds == 0', '!g_has_surv', '!g_region_cleared'] + INV + REQ_INV + zero(list(kinds) + [13, 14]) + zero(LIFE1, (1,)) + (['{ptr:event} == g_event'] if ev else []),
+        assigns=PR_ASSIGNS + marks(list(kinds) + [13, 14]) + REC_ASSIGNS + ['g_region_cleared'],
         ensures=[# C05: exactly once each, in this order, root then active state (post phase: active state then root)
                  ('C05', order),
                  ('C05', ' && '.join('g_st[%d][0] == 255 && g_st[%d][1] == %s' % (k, k, pre_act) for k in kinds)),
                  # ... and the state active at the start gets all its phase callbacks before any exit/enter/reenter caused by requests of this call
-                 ('C05', ' && '.join('(%s == 0 || %s > %s)' % (tk(k, 1), tk(k, 1), chain[5]) for k in LIFE1))]
+                 ('C05', ' && '.join('(%s == 0 || %s > %s)' % (tk(k, 1), tk(k, 1), chain[5]) for k in LIFE1)),
+                 # C09: the task results reported during a cycle do not outlive it (whether or not a plan exists)
+                 # (every cycle, plan or no plan: the flags are cleared by clearRegionStatuses(), which this records)
+                 ('C09', 'g_region_cleared')]
                 + pr_ensures(pre_act))
 R_UPDATE = r_cycle((4, 5, 6), False)
 R_REACT = r_cycle((7, 8, 10), True)
@@ -795,7 +798,11 @@ R_QUERY = dict(
     # C05: query leaves the machine unchanged: nothing of *self is in the frame
     assigns=['g_clock'] + marks([9]),
     ensures=[('C05', '%s && %s && g_st[9][0] == 255 && g_st[9][1] == %s' % (ticked(9, 0), ticked(9, 1), R_ACT))])
-CLEAR_REGION = {'PlanDataT__clearRegionStatuses': dict(requires=[], assigns=['*self'], ensures=['self->planExists == __CPROVER_old(self->planExists)'])}
+GHOST += ['_Bool g_region_cleared;   /* the region status flags were cleared in this cycle (history variable, set by clearRegionStatuses) */']
+CLEAR_REGION = {'PlanDataT__clearRegionStatuses': dict(requires=[], assigns=['*self'], assigns_callee=['g_region_cleared'],
+                                                       ensures=['self->planExists == __CPROVER_old(self->planExists)',
+                                                                'self->headStatus.result == TaskStatus_Result__NONE && self->subStatus.result == TaskStatus_Result__NONE'],
+                                                       ensures_callee=['g_region_cleared'])}
 PHASE_CALLEES_U = {'C___deepPreUpdate': c_phase_contract('preUpdate', False), 'C___deepUpdate': c_phase_contract('update', False), 'C___deepPostUpdate': c_phase_contract('postUpdate', True),
                    'C___deepUpdatePlans': C_UPDATE_PLANS, 'R___processRequest': R_PR}
 PHASE_CALLEES_R = {'C___deepPreReact__Ev': c_phase_contract('preReact', False), 'C___deepReact__Ev': c_phase_contract('react', False), 'C___deepPostReact__Ev': c_phase_contract('postReact', True),
